@@ -247,11 +247,80 @@ func alwaysNonNilError(g *ssa.Function) bool {
 }
 
 // lookupKey: if v is the element of a map lookup (plain or comma-ok), return the key value.
+// lookupHelper: g is `func (…, name string, …) (V, bool)` whose every return is either
+// (m[name], ok) of one comma-ok lookup keyed by its parameter, or (zero, false).  Returns the
+// struct field holding the map ("Environment.filters"), and the index of the key parameter.
+func lookupHelper(g *ssa.Function) (owner, field string, keyParam int, ok bool) {
+	if g == nil || g.Pkg == nil || g.Pkg.Pkg.Path() != twigPath || len(g.Blocks) == 0 || g.Signature.Results().Len() != 2 {
+		return "", "", 0, false
+	}
+	if !types.Identical(g.Signature.Results().At(1).Type().Underlying(), types.Typ[types.Bool]) {
+		return "", "", 0, false
+	}
+	var lk *ssa.Lookup
+	good, n := true, 0
+	instrsOf(g, func(in ssa.Instruction) {
+		ret, isRet := in.(*ssa.Return)
+		if !isRet || !good {
+			return
+		}
+		res := retResults(ret)
+		if len(res) != 2 {
+			good = false
+			return
+		}
+		if isConstBool(res[1], false) {
+			return
+		}
+		e0, ok0 := res[0].(*ssa.Extract)
+		e1, ok1 := res[1].(*ssa.Extract)
+		if !ok0 || !ok1 || e0.Tuple != e1.Tuple || e0.Index != 0 || e1.Index != 1 {
+			good = false
+			return
+		}
+		l, isL := e0.Tuple.(*ssa.Lookup)
+		if !isL || (lk != nil && lk != l) {
+			good = false
+			return
+		}
+		lk = l
+		n++
+	})
+	if !good || lk == nil || n == 0 {
+		return "", "", 0, false
+	}
+	p, isP := unspill(lk.Index).(*ssa.Parameter)
+	if !isP {
+		return "", "", 0, false
+	}
+	for i, gp := range g.Params {
+		if gp == p {
+			keyParam = i
+		}
+	}
+	u, isU := lk.X.(*ssa.UnOp)
+	if !isU {
+		return "", "", 0, false
+	}
+	fa, isFA := u.X.(*ssa.FieldAddr)
+	if !isFA {
+		return "", "", 0, false
+	}
+	owner, field = fieldOfAddr(fa)
+	return owner, field, keyParam, true
+}
+
 func lookupKey(v ssa.Value) (ssa.Value, bool) {
 	switch x := v.(type) {
 	case *ssa.Extract:
 		if l, ok := x.Tuple.(*ssa.Lookup); ok && x.Index == 0 {
 			return l.Index, true
+		}
+		// fn, ok := ctx.lookupFilter(name): a lookup helper keyed by its argument
+		if c, ok := x.Tuple.(*ssa.Call); ok && x.Index == 0 {
+			if _, _, kp, ok := lookupHelper(c.Call.StaticCallee()); ok && kp < len(c.Call.Args) {
+				return c.Call.Args[kp], true
+			}
 		}
 	case *ssa.Lookup:
 		return x.Index, true
